@@ -372,7 +372,13 @@ class LinearConstraints:
     def violation(self, x):
         if len(self.pcs):
             return np.concatenate([pc.violation(x) for pc in self.pcs])
-        return np.array([])
+        # The constraints have no column (all variables are fixed).
+        return np.concatenate(
+            (
+                np.maximum(self.a_ub @ x - self.b_ub, 0.0),
+                np.abs(self.a_eq @ x - self.b_eq),
+            )
+        )
 
 
 class NonlinearConstraints:
@@ -1197,7 +1203,7 @@ class Problem:
             b = self.bounds.violation(x)
             violation.append(b)
 
-        if len(self.linear.pcs):
+        if self.m_linear_ub + self.m_linear_eq > 0:
             lc = self.linear.violation(x)
             violation.append(lc)
         if len(self._nonlinear.pcs):
